@@ -41,7 +41,7 @@ STUB = ['uuid and identity-hash streams']
 ASSUMPTIONS = ['column names are ones every format accepts (the statement says so)', 'sampling, not proof']
 PROBES = ['csv', 'fits_table', 'votable', 'hdf5', 'gridded_fits', 'subset_export', 'empty_subset', 'full_subset', 'overwrite_existing',
           'fault_efbig', 'fault_missing_dir', 'fault_read_missing', 'fault_read_empty', 'fault_read_truncated', 'export_raised_loudly',
-          'reexport_after_update', 'byref_restart', 'chained_export']
+          'reexport_after_update', 'byref_restart', 'chained_export', 'all_nan_column']
 
 FORMATS = ['csv', 'fits_table', 'votable', 'hdf5', 'gridded_fits']
 EXT = {'csv': 'csv', 'fits_table': 'fits', 'votable': 'vot', 'hdf5': 'hdf5', 'gridded_fits': 'fits'}
@@ -58,7 +58,7 @@ def generate(rng, cfg, guards):
         order = list(range(len(NAMES)))
         rng.shuffle(order)
         ops.append(['new', 'table' if table else 'image', rng.randrange(4), rng.randrange(10000), rng.chance(0.6), rng.chance(0.6), order,
-                    rng.chance(0.5)])
+                    rng.chance(0.5), rng.chance(0.15)])
     for _ in range(rng.randrange(0, 3)):
         ops.append(['group', rng.randrange(8), rng.pick(['empty', 'full', 'proper', 'proper', 'mask']), rng.randrange(-3, 9) + 0.5, rng.randrange(1000)])
     pairs = sorted(WEIGHTS.items())
@@ -140,7 +140,8 @@ def _execute(case, res, tmp):
         res.nops += 1
         res.log.append([k] + [x for x in op[1:4] if isinstance(x, (str, int, type(None)))])
         if k == 'new':
-            _, kind, shape_i, vs, with_int, with_str, order, special = op
+            _, kind, shape_i, vs, with_int, with_str, order, special = op[:8]
+            allnan = len(op) > 8 and op[8]
             from glue.core.data import Data
             w.ndata += 1
             d = Data(label='d%d' % w.ndata)
@@ -150,7 +151,12 @@ def _execute(case, res, tmp):
                 shape = [(3, 4), (4, 3), (2, 3, 4), (2, 2)][shape_i % 4]
             names = [NAMES[i] for i in order]
             d.add_component(W.values(vs, shape, 'int', special), names[0])
-            d.add_component(W.values(vs + 1, shape, 'int'), names[1])
+            if allnan:
+                # a column without a single measured value
+                d.add_component(np.full(shape, np.nan), names[1])
+                res.probe('all_nan_column')
+            else:
+                d.add_component(W.values(vs + 1, shape, 'int'), names[1])
             if with_int:
                 d.add_component(W.values(vs + 2, shape, 'intdtype'), names[2])
             if with_str and kind == 'table':
